@@ -387,6 +387,22 @@ fn maybe_cyclic_conflict(seed: u64, sc: &mut Scenario, one_in: usize) -> bool {
     true
 }
 
+/// On a fraction of the seeds: the ladder (see `gen::ladder`), 12..48 rungs.
+fn maybe_ladder(seed: u64, sc: &mut Scenario, one_in: usize) -> bool {
+    let mut r = Rng::stream(seed, "ladder");
+    if !r.chance(1, one_in) {
+        return false;
+    }
+    let rungs = if r.chance(1, 3) { r.range(40, 48) } else { r.range(12, 36) };
+    let (w, p) = crate::gen::ladder(&mut r, rungs);
+    sc.world = w;
+    sc.solves.truncate(1);
+    sc.solves[0].problem = p;
+    sc.solves[0].cancel = None;
+    sc.poll_budget = 200_000;
+    true
+}
+
 /// On a fraction of the seeds: a wide fan-out world (31..60 requirements on distinct packages, packages with more
 /// than 30 hinted candidates, unions with more than 30 members).
 fn maybe_wide(seed: u64, sc: &mut Scenario, one_in: usize) -> bool {
@@ -419,8 +435,9 @@ fn maybe_chain(seed: u64, sc: &mut Scenario, one_in: usize) -> bool {
         s.problem = p.clone();
         s.cancel = None;
     }
-    sc.poll_budget = 30_000 + 20 * len as u64;
-    sc.step_budget = 100_000 + 20 * len as u64;
+    // hang detection only: orders of magnitude above what a chain of this length legitimately needs
+    sc.poll_budget = 2_000_000 + 2_000 * len as u64;
+    sc.step_budget = 4_000_000 + 2_000 * len as u64;
     true
 }
 
@@ -905,6 +922,7 @@ impl Property for C03 {
         let mut sc = std_scenario(seed, &params, None);
         maybe_forest(seed, &mut sc, &params, 40, tier);
         maybe_cyclic_conflict(seed, &mut sc, 40);
+        maybe_ladder(seed, &mut sc, 1500);
         sc.render = true;
         sc.capture_state = true;
         // a deadline-style provider keeps reporting cancellation while the report is built; the caller swaps the
@@ -1018,6 +1036,7 @@ impl Property for C04 {
         maybe_wide(seed, &mut sc, 300);
         maybe_chain(seed, &mut sc, 4000);
         maybe_cyclic_conflict(seed, &mut sc, 40);
+        maybe_ladder(seed, &mut sc, 1500);
         sc.render = true;
         sc.cancel_during_render = r.chance(1, 4);
         sc.rewrap_before_render = r.chance(1, 10);
